@@ -23,7 +23,7 @@ ASSUMPTIONS = [
 ]
 
 STATES = ["unpinned", "pinned-same", "pinned-different", "unparsable", "unparsable-pinned", "changed-after-success",
-          "pinned-twin"]
+          "pinned-twin", "pinned-different-expired"]
 HOSTS = ["target", "target", "0:0:0:0:0:0:0:1", "target."]
 OPS = ["get", "get-query", "upload", "delete"]
 
@@ -38,6 +38,8 @@ def case_st():
         "tls": st.sampled_from(["1.3", "1.2"]),
         "dbfault": st.sampled_from([None, None, None, 1, 2, 3, 4, 5, 6]),
         "host": st.sampled_from(HOSTS),
+        # the client object is used inside `async with`, after an earlier `async with` block has ended, or plainly
+        "ctx": st.sampled_from(["plain", "plain", "inside", "after"]),
     })
 
 
@@ -52,6 +54,8 @@ def enum_all(tier):
                         for size in ([100] if op != "upload" else [1, 100, 65536]):
                             yield {"state": s, "op": op, "size": size, "peer": peer, "redirect": redirect, "tls": tls, "dbfault": None}
                             if peer == "eager" and tls == "1.3" and size == 100:
+                                yield {"state": s, "op": op, "size": size, "peer": peer, "redirect": redirect, "tls": tls, "dbfault": None,
+                                       "ctx": "after"}
                                 for h in HOSTS[2:]:
                                     yield {"state": s, "op": op, "size": size, "peer": peer, "redirect": redirect, "tls": tls,
                                            "dbfault": None, "host": h}
@@ -77,7 +81,7 @@ def run_case(case: dict):
     if case["op"] != "get":
         case["redirect"] = False  # only plain fetches follow redirects
     state = case["state"]
-    presented = {"unpinned": "ec-a", "pinned-same": "ec-a", "pinned-different": "ec-b", "pinned-twin": "twin-b",
+    presented = {"unpinned": "ec-a", "pinned-same": "ec-a", "pinned-different": "ec-b", "pinned-twin": "twin-b", "pinned-different-expired": "ec-expired",
                  "unparsable": "hostile-bool", "unparsable-pinned": "hostile-v4", "changed-after-success": "ec-b"}[state]
     T = case.get("host") or "target"  # the spelling of the target host in URLs, pins and redirects
     TA = f"[{T}]" if ":" in T else T
@@ -97,13 +101,16 @@ def run_case(case: dict):
         good = memnet.ScriptedPeer(certs.get("rsa-a"), [("wait_request", 1.0), ("send", f"30 gemini://{TA}/landing?from=good\r\n".encode()), ("close",)])
         net.add("good", 1965, good)
         db = TOFUDatabase(dbpath)
-        if state in ("pinned-same", "pinned-different", "unparsable-pinned"):
+        if state in ("pinned-same", "pinned-different", "unparsable-pinned", "pinned-different-expired"):
             db.trust(T, 1965, x509.load_der_x509_certificate(certs.get("ec-a").der))
         if state == "pinned-twin":
             # the pinned certificate and the presented one share issuer name and serial number (both are chosen by
             # whoever makes a self-signed certificate) but not the key
             db.trust(T, 1965, x509.load_der_x509_certificate(certs.get("twin-a").der))
         client = GeminiClient(timeout=20, tofu_db_path=dbpath)
+        if case.get("ctx") == "after":
+            async with client:
+                pass
         if state == "changed-after-success":
             # the same long-lived client first completes a verified fetch; then the peer starts presenting another certificate
             target.cert_sequence = [certs.get("ec-a"), certs.get("ec-b")]
@@ -161,7 +168,7 @@ def run_case(case: dict):
         import shutil
 
         shutil.rmtree(d, ignore_errors=True)
-    should_fail = state in ("pinned-different", "unparsable", "unparsable-pinned", "changed-after-success", "pinned-twin")
+    should_fail = state in ("pinned-different", "unparsable", "unparsable-pinned", "changed-after-success", "pinned-twin", "pinned-different-expired")
     if case.get("dbfault") and not should_fail:
         # the matching pin could not be (fully) consulted/updated: the call may fail or succeed; nothing to require here
         # beyond 'nothing before verification started', which was checked above
